@@ -132,7 +132,7 @@ fn make_contradiction(g: &mut G<'_>, conv: &mut Conversation) -> Option<(usize, 
                     r.form = RowForm::Cols;
                 }
             }
-            rows.insert(at, RowProg { cells, form });
+            rows.insert(at, RowProg { cells, form, offers: vec![] });
             return Some((ci, si, at, what));
         }
     }
@@ -186,8 +186,8 @@ impl Prop for C03 {
         for (i, &len) in lens.iter().enumerate() {
             for bin in [false, true] {
                 let cols = vec![ColSpec::simple("a", T_LONG_BLOB, 0), ColSpec::simple("b", T_LONG_BLOB, 0), ColSpec::simple("c", T_LONG, 0)];
-                let full = RowProg { cells: vec![Val::plain(Base::Slice(b"x".to_vec())), Val::plain(Base::Slice(b"y".to_vec())), Val::plain(Base::I32(1))], form: RowForm::WriteRow };
-                let partial = RowProg { cells: vec![Val::plain(Base::BigBytes { seed: i as u32, len })], form: RowForm::ColsOpen };
+                let full = RowProg { cells: vec![Val::plain(Base::Slice(b"x".to_vec())), Val::plain(Base::Slice(b"y".to_vec())), Val::plain(Base::I32(1))], form: RowForm::WriteRow, offers: vec![] };
+                let partial = RowProg { cells: vec![Val::plain(Base::BigBytes { seed: i as u32, len })], form: RowForm::ColsOpen, offers: vec![] };
                 let prog = Program { steps: vec![Step::Set { cols, rows: vec![full, partial], end: SetEnd::FinishError { kind: 1105, msg: b"gave up".to_vec() } }] };
                 let mut conv = if bin {
                     Conversation::new(
@@ -320,6 +320,13 @@ impl Prop for C03 {
         if o.calls.iter().any(|k| !k.ok) {
             let k = o.calls.iter().find(|k| !k.ok).unwrap();
             ex.fail("c03-writer-call-failed", format!("writer call {} failed in a shape-conforming program", k.name));
+        }
+        if let Some(a) = o.offers_accepted.first() {
+            ex.fail("c03-contradicting-call-accepted", format!("a writer call that contradicts the declared row shape reported success: {}", a.chars().take(300).collect::<String>()));
+        }
+        if o.offers_refused > 0 {
+            ex.class("row-continued-after-refused-write_col");
+            ex.count("offers_refused", o.offers_refused as u64);
         }
         if !o.mismatches.is_empty() || o.leftover_actions != 0 {
             ex.fail("c03-callback-mismatch", format!("callbacks do not match the script: {:?}, {} programs unused", o.mismatches, o.leftover_actions));
